@@ -10,6 +10,9 @@ Import ListNotations.
 Record elem := mk_elem { val : N; moved : bool }.
 Inductive ekind := KFull | KMoveOnly | KCopyOnly.
 Definition fresh (v : N) : elem := mk_elem v false.
+(* the element's converting constructor throws on this designated argument (harness: El::throw_magic) *)
+Definition throw_magic : N := 3735928559.
+Definition throws (v : N) : bool := N.eqb v throw_magic.
 (* what a C++ "move" does to its source: nothing when the element type has no move operations *)
 Definition mark_moved (k : ekind) (e : elem) : elem :=
   match k with KCopyOnly => e | _ => mk_elem (val e) true end.
@@ -22,7 +25,8 @@ Definition st (d : nat) : obj := (0, 2 * S d).
 Inductive out :=
 | RUnit | RSkip | RAssert | RUB
 | RBool (b : bool) | RVal (v : N) | RNone
-| RErr (e : N).            (* expected-valued result in the error state *)
+| RErr (e : N)             (* expected-valued result in the error state *)
+| RThrow.                  (* the element's constructor threw (caught by the caller); the run goes on *)
 
 (* holder variables: raw storage (Dead) or a constructed holder *)
 Inductive cell (H : Type) := Dead | Live (h : H).
